@@ -24,6 +24,8 @@ type cfg struct {
 	headerSource HeaderSource
 
 	msg any
+	// source of the request X-headers if msg is not
+	xHeaders xHeaderSource
 
 	cnr cid.ID
 	obj oid.ID
@@ -88,6 +90,8 @@ func (h *headerSource) HeadersOfType(typ eacl.FilterHeaderType) ([]eacl.Header, 
 		if h.requestHeaders == nil {
 			if x, ok := h.cfg.msg.(xHeaderSource); ok {
 				h.requestHeaders = requestHeaders(x)
+			} else if h.cfg.xHeaders != nil {
+				h.requestHeaders = requestHeaders(h.cfg.xHeaders)
 			}
 		}
 		return h.requestHeaders, true, nil
